@@ -180,13 +180,50 @@ func GenJSVal(t *rapid.T) JSVal {
 			return JSVal{Kind: "null", Src: "null", Tag: "literal"}
 		}
 		return JSVal{Kind: "undefined", Src: rapid.SampledFrom([]string{"undefined", "void 0", "({}).nothing"}).Draw(t, "undef"), Tag: "literal"}
-	case k < 17:
+	case k < 15:
 		o := rapid.SampledFrom(ObjectPool).Draw(t, "object")
 		return JSVal{Kind: "object", Src: o.Src, Tag: o.Tag}
+	case k < 17:
+		return genParamObject(t)
 	default:
-		vo := rapid.SampledFrom(convSpecs).Draw(t, "valueOf")
-		ts := rapid.SampledFrom(convSpecs).Draw(t, "toString")
-		return JSVal{Kind: "object", Src: fmt.Sprintf("c15mk(%s,%s)", vo, ts), Tag: "converter"}
+		spec := func(label string) string {
+			if rapid.IntRange(0, 2).Draw(t, label+"gen") == 0 {
+				return `["ret",` + genPrimSrc(t) + `]`
+			}
+			return rapid.SampledFrom(convSpecs).Draw(t, label)
+		}
+		return JSVal{Kind: "object", Src: fmt.Sprintf("c15mk(%s,%s)", spec("valueOf"), spec("toString")), Tag: "converter"}
+	}
+}
+
+// genPrimSrc draws the source of a primitive (number or string) for use inside objects.
+func genPrimSrc(t *rapid.T) string {
+	if rapid.Bool().Draw(t, "primIsNum") {
+		return GenJSNumber(t).Src
+	}
+	s := GenJSString(t)
+	if s.Tag == "fromCharCode" {
+		return JSStr(s.Str) // keep String.fromCharCode results (a separate finding) to the top level
+	}
+	return s.Src
+}
+
+// genParamObject draws wrapper objects, arrays and dates around generated primitives.
+func genParamObject(t *rapid.T) JSVal {
+	switch rapid.IntRange(0, 5).Draw(t, "paramobj") {
+	case 0:
+		return JSVal{Kind: "object", Src: "new Number(" + GenJSNumber(t).Src + ")", Tag: "wrapper"}
+	case 1:
+		return JSVal{Kind: "object", Src: "new String(" + genPrimSrc(t) + ")", Tag: "wrapper"}
+	case 2:
+		return JSVal{Kind: "object", Src: "Object(" + genPrimSrc(t) + ")", Tag: "wrapper"}
+	case 3:
+		return JSVal{Kind: "object", Src: "[" + genPrimSrc(t) + "]", Tag: "array"}
+	case 4:
+		return JSVal{Kind: "object", Src: "[" + genPrimSrc(t) + "," + genPrimSrc(t) + "]", Tag: "array"}
+	default:
+		ms := rapid.Int64Range(-8640000000000000, 8640000000000000).Draw(t, "time")
+		return JSVal{Kind: "object", Src: "new Date(" + strconv.FormatInt(ms, 10) + ")", Tag: "date"}
 	}
 }
 
